@@ -574,6 +574,7 @@ func cmdCheck(prop, tier string) int {
 	reported := 0
 	knownHit := map[string]bool{}
 	seenClass := map[string]bool{}
+	newClasses := 0
 	var violationLines []string
 	os.MkdirAll(filepath.Join(verifDir, "replays"), 0o755)
 	for _, f := range finds {
@@ -581,8 +582,16 @@ func cmdCheck(prop, tier string) int {
 		if f.crash {
 			class = "crash:" + f.v.Msg
 		}
-		if seenClass[class] || len(seenClass) >= tc.maxFinds {
+		if seenClass[class] {
 			continue
+		}
+		// known findings are all reported (cheaply: a short shrink); only new
+		// violation classes are limited, each costs a full shrink
+		if !f.known && newClasses >= tc.maxFinds {
+			continue
+		}
+		if !f.known {
+			newClasses++
 		}
 		seenClass[class] = true
 		rf := f.rf
@@ -598,7 +607,11 @@ func cmdCheck(prop, tier string) int {
 		} else {
 			raw := filepath.Join(dir, "raw.json")
 			writeJSON(raw, rf)
-			w := startWorker(bin, dir, prop, map[string]string{"VERIF_SHRINK": raw, "VERIF_SHRINK_S": strconv.Itoa(tc.shrinkS)}, "shrink")
+			shrinkS := tc.shrinkS
+			if f.known {
+				shrinkS = 8
+			}
+			w := startWorker(bin, dir, prop, map[string]string{"VERIF_SHRINK": raw, "VERIF_SHRINK_S": strconv.Itoa(shrinkS)}, "shrink")
 			var min replayFile
 			if err := readJSON(w.out, &min); err == nil && len(min.Decisions) > 0 {
 				rf = min
